@@ -350,6 +350,47 @@ func runC17(c *core.Ctx) {
 		})
 	}
 	c.Affinity(-1)
+
+	// the tracking index (RelayState, also the cookie-name suffix) over its whole first-character alphabet and a few words: whatever an
+	// application's RelayStateFunc (or the random default) produces, the flow completes at its own URL
+	c.Group("index-alphabet")
+	var idxs []string
+	for _, ch := range "ABCDEFGHIJKLMNOPQRSTUVWXYZabcdefghijklmnopqrstuvwxyz0123456789-_" {
+		idxs = append(idxs, string(ch)+"Qz7", string(ch))
+	}
+	idxs = append(idxs, "saml_", "saml_saml_x", "sso", "login-1", "app1", "my-state", "mass", "salsa_lama", "__", "s", "state.with.dots", "UPPER", "a~b", "tilde~", "x!y", "p*q")
+	for _, ix := range idxs {
+		for _, binding := range []string{"redirect", "post"} {
+			ix, binding := ix, binding
+			key := fmt.Sprintf("index/%s/%+q", binding, ix)
+			c.Case(key, func(t *core.T) {
+				t.NonTrivial()
+				w := newC17World(c17Cfg{binding, "https", "sp2048", "nil"})
+				tr, ok := w.m.RequestTracker.(samlsp.CookieRequestTracker)
+				if !ok {
+					t.Outcome("other-tracker")
+					return
+				}
+				tr.RelayStateFunc = func(http.ResponseWriter, *http.Request) string { return ix }
+				w.m.RequestTracker = tr
+				st := &c17State{jar: map[string]c17Cookie{}, ever: map[string]string{}, flows: []c17Flow{{url: w.urls[0], user: w.users[0]}}}
+				var bad []string
+				bad = append(bad, c17Start(w, st, 0)...)
+				if len(bad) == 0 && st.flows[0].status == 1 {
+					bad = append(bad, c17Answer(w, st, 0)...)
+					bad = append(bad, c17Deliver(w, st, 0, st.flows[0].index, "own", w.view(st, "/saml/acs"), "jar")...)
+				}
+				t.Impl(w.impl)
+				t.Compared()
+				t.Outcome(fmt.Sprintf("status=%d owner=%q", st.flows[0].status, st.owner))
+				for _, b := range bad {
+					f, d, _ := strings.Cut(b, "|")
+					t.Fail("C17/index-alphabet/"+f, "tracking index %+q: %s", ix, d)
+				}
+			})
+		}
+	}
+
 	c.Note("bfs_states", float64(totalStates))
 	c.Note("bfs_transitions", float64(totalTrans))
 }
